@@ -206,7 +206,9 @@ def run(tier):
         chk.add_tlc(res3)
         runs.append(res3)
     for r in runs:
-        if r.violated and r.violated != 'FailSafe':
+        if r.violated in ('DiagBeforeOutput', 'DiagStopsEarly'):
+            chk.violation(dict(kind='spec-invariant', invariant=r.violated), dict(tail=r.out[-2000:]))
+        elif r.violated and r.violated != 'FailSafe':
             raise C.Machinery('Cmdline spec invariant %s violated' % r.violated)
         if not r.ok and not r.violated:
             raise C.Machinery('TLC failed on Cmdline: ' + r.out[-1500:])
